@@ -73,6 +73,11 @@ func NewSimpleURL(u *url.URL) (SimpleURL, error) {
 			}
 		case name == "filter":
 			var err error
+
+			if values.Get(name) == "" {
+				return sURL, NewErrMalformedFilterParameter(values.Get(name))
+			}
+
 			if values.Get(name)[0] != '{' {
 				// It should be a label
 				err = json.Unmarshal([]byte("\""+values.Get(name)+"\""), &sURL.FilterLabel)
